@@ -815,6 +815,10 @@ def rule_difference_length_guarded(ctx, files=("hdf/src/cdeflate.c", "hdf/src/cr
                             ok = True
                         if c[1] == ">" and l_ == A and is_int(strip(c[3])) and is_int(strip(a[3])) and strip(c[3])[1] >= strip(a[3])[1]:
                             ok = True
+                        # the difference itself compared with 0: (A - B) > 0, (A - B) != 0
+                        d_ = strip(c[2])
+                        if c[1] in (">", "!=") and kind(d_) == "bin" and d_[1] == "-" and render(strip(d_[2])) == A and render(strip(d_[3])) == B and is_int(strip(c[3]), 0):
+                            ok = True
             if ok:
                 ctx.holds("POSLEN", key, f.where(line), "`Hwrite(.., %s - %s, ..)` is made only when the difference is positive" % (A[:30], B[:30]), nontrivial=True)
             else:
